@@ -116,10 +116,7 @@ class HavlinClimateNetwork(ClimateNetwork):
         """
         Clean up cache.
         """
-        try:
-            del self._correlation_lag
-        except AttributeError:
-            pass
+        self._correlation_lag = None
 
     #
     #  Defines methods to calculate correlation strength and lags
@@ -234,6 +231,10 @@ class HavlinClimateNetwork(ClimateNetwork):
         :rtype: 2D array [index, index]
         :return: the lag at maximum cross-correlation matrix.
         """
+        if self._correlation_lag is None:
+            #  (dropped by clear_cache)
+            self._correlation_lag = self._calculate_correlation_strength(
+                self.data.anomaly(), self._max_delay)[1]
         return self._correlation_lag
 
     #
